@@ -468,10 +468,10 @@ def check(pid, tier, replay=None):
                 missing_part=cfg["missing"],
                 evaluations=evaluations, distinct_nontrivial=distinct, rule=cfg["rule"],
                 samples=samples[:8],
-                streams={k: {kk: v[kk] for kk in ("evaluations", "distinct_nontrivial", "tags", "out_kinds", "line_size_hist",
-                                                   "n_disagreements", "corpus_cases", "enumerated", "exhaustive_part", "wall_s")}
+                streams={k: {kk: v.get(kk) for kk in ("evaluations", "distinct_nontrivial", "tags", "out_kinds", "line_size_hist",
+                                                       "n_disagreements", "corpus_cases", "enumerated", "exhaustive_part", "wall_s", "extra")}
                          for k, v in stream_stats.items()},
-                oracles={k: {kk: v.get(kk) for kk in ("evaluations", "distinct_nontrivial", "tags", "n_failures")}
+                oracles={k: {kk: v.get(kk) for kk in ("evaluations", "distinct_nontrivial", "tags", "n_failures", "samples")}
                          for k, v in oracle_stats.items()},
                 exhaustive=False,
                 known_findings=[k["cls"] for k in known_here], known_findings_hit=listed_classes,
